@@ -230,6 +230,9 @@ func zeroValue(t types.Type) SV {
 
 // mergeSV = ite(c, a, b) leafwise.
 func mergeSV(c *Term, a, b SV, t types.Type) SV {
+	if a == b {
+		return a // the very same symbolic value on both paths (keeps the identity of closures and interface payloads)
+	}
 	if pa, ok := a.(*PtrV); ok {
 		pb := b.(*PtrV)
 		if pa.LV != nil || pb.LV != nil {
